@@ -49,3 +49,5 @@ Definition zeqb_list (a b : list Z) : bool :=
                  | [], [] => true
                  | x :: a', y :: b' => Z.eqb x y && go a' b'
                  | _, _ => false end) a b.
+
+Definition is_nil_b {A : Type} (l : list A) : bool := match l with [] => true | _ => false end.
